@@ -88,6 +88,19 @@ class C05(Prop):
                 ranks[rng.below(n)] = None
             yield mk_case(et, shape, ranks, rng.choice(zoo(shape, rng, 3)), rng)
 
+        # arrays with axes of length 1: ndarray leaves the stride of such an axis arbitrary and still calls the array
+        # contiguous, so every contiguous non-row-major arrangement of a shape with unit axes is presented
+        # (row vector from a transposed column, F order, permuted axes), with the extrema away from the first cell
+        from ..layouts import contig_variant
+        for shape in ([1, 4], [4, 1], [1, 5], [2, 1, 3], [1, 3, 1], [1, 1, 4], [3, 1, 2], [2, 3, 1], [1, 2, 1, 3]):
+            n = prod(shape)
+            for rep in range(4 if tier == "quick" else 40):
+                et = rng.choice(ets)
+                ranks = [rng.below(4) + 1 for _ in range(n)]
+                ranks[rng.range(1, n - 1)] = 0
+                ranks[rng.range(1, n - 1)] = 5
+                yield mk_case(et, shape, ranks, contig_variant(shape, rng), rng)
+
     def parse(self, case):
         secs = [s.split() for s in case.raw.split("|")]
         assert secs[0][0] == "OK"
